@@ -25,7 +25,7 @@ import (
 func init() {
 	Registry["C13"] = &Check{
 		Scenarios: c13Scenarios,
-		Rule: "client side: MaxRetransmits R in {0,1,2}, WatchdogInterval 3 s, RetransmitInterval 1 s on the virtual clock; the peer's reaction to the n-th DWR transmission is scripted from {success DWA after 0, 1/2 or 1 interval (1 = exact tie with the retransmission timer), DWA 5012 at once, silence}, server side: every sequence of <=3 DWRs over {fresh identifiers, the previous identifiers again, the same with the T flag, fresh with the T flag, the same with the P flag, zero identifiers with T} is answered DWR by DWR; scripts with other non-success answers (1001, 3004, a DWA without Result-Code) and with a peer that leaves a DWR unanswered but sends a DWR of its own at that instant, plus five burst scripts with answers delayed by 3/2 and 5/2 intervals (several late answers landing inside one later waiting window); all scripts of length <=2 (thorough 3), silence afterwards, so every run ends with the watchdog closing the connection; every schedule of watchdog thread, reader, timers and peer up to preemption bound 2 (thorough: unbounded for scripts of length <=1); peer steps and due timers are free transitions, so every ordering of answer / timer / reader is explored already at bound 0. In every other scenario the application replaces the connection context after the handshake by one derived from it that carries a value of its own and has been cancelled. Oracle: the observed (time, hop-by-hop id) sequence of DWRs and the close time must be one of the timelines of a reference model (branching only at exact ties). Redial: the peer of a first connection leaves the first DWR unanswered and disconnects 0 or 1/2 interval later, the application redials at once with the same Client, and the second connection (peer answers two DWRs, then silence) must show the model's timeline measured from its own handshake (R in {0,1}). A handshake that takes longer than WatchdogInterval (the peer answers only the retransmitted CER): no DWR before the CEA, the first one interval after it. Two live connections of one Client (dialled one after the other, both peers answer every DWR): neither is closed and each sees one DWR per interval. A client with the watchdog enabled answers a DWR its handshaken peer sends (between rounds and at the instant of its own DWR). Server side: one state machine serves 40 peers one after the other (handshake, DWR, disconnect each); for every DWR from a handshaken peer over {both identity AVPs, Origin-Host missing, Origin-Realm missing, with Origin-State-Id, Origin-Host in another letter case, another Origin-Host} x ids {0,1,2^31,2^32-1}^2 the state machine must answer a success DWA with the local identity and the request's ids.",
+		Rule: "client side: MaxRetransmits R in {0,1,2}, WatchdogInterval 3 s, RetransmitInterval 1 s on the virtual clock; the peer's reaction to the n-th DWR transmission is scripted from {success DWA after 0, 1/2 or 1 interval (1 = exact tie with the retransmission timer), DWA 5012 at once, silence}, two dials through one state machine, one with the watchdog off and one with it on, in either order (the watched connection stays open and is probed every interval, the other never sees a DWR); server side: every sequence of <=3 DWRs over {fresh identifiers, the previous identifiers again, the same with the T flag, fresh with the T flag, the same with the P flag, zero identifiers with T} is answered DWR by DWR; scripts with other non-success answers (1001, 3004, a DWA without Result-Code) and with a peer that leaves a DWR unanswered but sends a DWR of its own at that instant, plus five burst scripts with answers delayed by 3/2 and 5/2 intervals (several late answers landing inside one later waiting window); all scripts of length <=2 (thorough 3), silence afterwards, so every run ends with the watchdog closing the connection; every schedule of watchdog thread, reader, timers and peer up to preemption bound 2 (thorough: unbounded for scripts of length <=1); peer steps and due timers are free transitions, so every ordering of answer / timer / reader is explored already at bound 0. In every other scenario the application replaces the connection context after the handshake by one derived from it that carries a value of its own and has been cancelled. Oracle: the observed (time, hop-by-hop id) sequence of DWRs and the close time must be one of the timelines of a reference model (branching only at exact ties). Redial: the peer of a first connection leaves the first DWR unanswered and disconnects 0 or 1/2 interval later, the application redials at once with the same Client, and the second connection (peer answers two DWRs, then silence) must show the model's timeline measured from its own handshake (R in {0,1}). A handshake that takes longer than WatchdogInterval (the peer answers only the retransmitted CER): no DWR before the CEA, the first one interval after it. Two live connections of one Client (dialled one after the other, both peers answer every DWR): neither is closed and each sees one DWR per interval. A client with the watchdog enabled answers a DWR its handshaken peer sends (between rounds and at the instant of its own DWR). Server side: one state machine serves 40 peers one after the other (handshake, DWR, disconnect each); for every DWR from a handshaken peer over {both identity AVPs, Origin-Host missing, Origin-Realm missing, with Origin-State-Id, Origin-Host in another letter case, another Origin-Host} x ids {0,1,2^31,2^32-1}^2 the state machine must answer a success DWA with the local identity and the request's ids.",
 		Assume: []string{"virtual time: writes and computation take no time", "data-race freedom between visible operations (audited separately with -race)"},
 		QuickBudget: 150, ThoroughBudget: 2400,
 	}
@@ -123,6 +123,9 @@ func c13Scenarios(tier string) []*Scenario {
 	out = append(out, c13SlowHandshake(bound))
 	for _, at := range []time.Duration{c13I, c13W, c13W + 3*c13I/2} { // before the first round, exactly when the client's own DWR goes out, and in the quiet part between two rounds
 		out = append(out, c13PeerDWR(at, bound))
+	}
+	for _, flip := range []bool{false, true} {
+		out = append(out, c13MixedDials(flip, bound))
 	}
 	out = append(out, &Scenario{Name: "server/dwr-grid", Seq: c13Server})
 	out = append(out, &Scenario{Name: "server/dwr-sequences", Seq: c13ServerSeqs})
@@ -530,6 +533,100 @@ func c13Server(r *SeqResult) {
 			}
 		}
 	}
+}
+
+// c13MixedDials: two dials through ONE state machine, one with the watchdog off (a probe, or the
+// configuration before a reload) and one with it on, in either order. The peer of the watched
+// connection answers every DWR: that connection stays open and keeps being probed every
+// WatchdogInterval; the unwatched one never sees a DWR.
+var c13mixed struct {
+	watched, plain *vnet.Conn
+	dwrsWatched    []time.Duration
+	dwrsPlain      int
+	ok             [2]bool
+}
+
+func c13MixedDials(watchedFirst bool, bound int) *Scenario {
+	body := func() {
+		st := &c13mixed
+		st.dwrsWatched, st.dwrsPlain, st.ok = nil, 0, [2]bool{}
+		st.watched, st.plain = vnet.NewConn("W"), vnet.NewConn("P")
+		st.watched.Pieces, st.plain.Pieces = 1, 1
+		settings := &sm.Settings{OriginHost: "cli", OriginRealm: "test", VendorID: 13, ProductName: "prod",
+			HostIPAddresses: []datatype.Address{datatype.Address(net.ParseIP("10.0.0.2"))}}
+		mach := sm.New(settings)
+		mk := func(watchdog bool) *sm.Client {
+			return &sm.Client{Handler: mach, Dict: dict.Default, MaxRetransmits: 0, RetransmitInterval: c13I,
+				EnableWatchdog: watchdog, WatchdogInterval: c13W,
+				AuthApplicationID: []*diam.AVP{diam.NewAVP(avp.AuthApplicationID, avp.Mbit, 0, datatype.Unsigned32(4))}}
+		}
+		peer := func(conn *vnet.Conn, watched bool) {
+			p := &Peer{C: conn}
+			for {
+				m := p.Next()
+				if m == nil {
+					return
+				}
+				switch {
+				case m.Hdr.Code == 257:
+					conn.Deliver(peerAnswer(m, 2001, true))
+				case m.Hdr.Code == 280 && m.Hdr.Flags&0x80 != 0:
+					if watched {
+						st.dwrsWatched = append(st.dwrsWatched, vs.Now())
+					} else {
+						st.dwrsPlain++
+					}
+					conn.Deliver(peerAnswer(m, 2001, false))
+				}
+			}
+		}
+		vs.GoNamed("peer-watched", true, func() { peer(st.watched, true) })
+		vs.GoNamed("peer-plain", true, func() { peer(st.plain, false) })
+		order := []bool{false, true}
+		if watchedFirst {
+			order = []bool{true, false}
+		}
+		for i, w := range order {
+			conn := st.plain
+			if w {
+				conn = st.watched
+			}
+			c, err := mk(w).NewConn(conn, "peer")
+			st.ok[i] = c != nil && err == nil
+		}
+	}
+	check := func(s *vs.Sched) string {
+		st := &c13mixed
+		var v []string
+		if !st.ok[0] || !st.ok[1] {
+			return "harness: a dial failed"
+		}
+		if st.watched.Closed {
+			v = append(v, fmt.Sprintf("the watched connection was closed at %v although its peer answered every DWR (%d answered)", st.watched.ClosedAt, len(st.dwrsWatched)))
+		}
+		if len(st.dwrsWatched) < 2 {
+			v = append(v, fmt.Sprintf("the watched connection saw %d DWRs within 2.5 watchdog intervals, expected at least 2", len(st.dwrsWatched)))
+		}
+		seen := map[time.Duration]bool{}
+		for _, t := range st.dwrsWatched {
+			if seen[t] {
+				v = append(v, fmt.Sprintf("two DWR transmissions at %v although the first was answered at once", t))
+			}
+			seen[t] = true
+		}
+		if st.dwrsPlain > 0 {
+			v = append(v, fmt.Sprintf("the connection dialled with the watchdog off received %d DWRs", st.dwrsPlain))
+		}
+		if st.plain.Closed {
+			v = append(v, "the connection dialled with the watchdog off was closed")
+		}
+		for _, p := range s.Panics() {
+			v = append(v, "panic: "+p)
+		}
+		return strings.Join(v, " | ")
+	}
+	return &Scenario{Name: fmt.Sprintf("two-dials-one-state-machine/watched-first=%v", watchedFirst), Body: body, Check: check, Bound: bound, Horizon: 5 * c13W / 2,
+		Outcome: func(s *vs.Sched) string { return fmt.Sprint(len(c13mixed.dwrsWatched), c13mixed.watched.Closed) }}
 }
 
 // c13ServerSeqs: a handshaken peer sends SEQUENCES of DWRs - fresh identifiers, the identifiers
